@@ -821,7 +821,11 @@ def wave9_rules(ctx):
             wrong, und = [], False
             for ic in ("None", "If", "Elif", "Else"):
                 for fl in ("None", "For"):
-                    env = {"if_condition": ("E", ic, () if ic == "None" else (F, F)), "for_list": ("E", fl, () if fl == "None" else (("list", F),)), "slot_value_refs": ("Some", F), "ps": F}
+                    # either classification may be an enum of its own (`ForList::None`) or an Option (`None` / `Some(..)`)
+                    blk_text = sir.expr_str(blk) + " ".join(sir.pat_str(a_["pat"]) for a_ in sir.walk(blk) if a_.get("k") == "arm")
+                    for_v = ("E", fl, () if fl == "None" else (("list", F),)) if "ForList::" in blk_text else (ai.NONE if fl == "None" else ("Some", F))
+                    if_v = ("E", ic, () if ic == "None" else (F, F)) if "IfCondition::" in blk_text else (ai.NONE if ic == "None" else ("Some", ("E", ic, (F, F))))
+                    env = {"if_condition": if_v, "for_list": for_v, "slot_value_refs": ("Some", F), "ps": F}
                     try:
                         outs = ai.Interp(hooks=hooks, idx=tc).run(blk, env)
                     except ai.TooManyPaths:
